@@ -163,6 +163,9 @@ def run_spec(w, spec, meta_base) -> None:
 
 def specs(w):
     rng = w.rng
+    # (the plan - which programs exist, in which order - comes from a stream that is the same in every shard, so that the running
+    # index means the same program everywhere; only the content of a program comes from the shard's own stream)
+    plan = __import__("random").Random("C02-plan/{}/{}".format(w.tier, getattr(w, "seed", 0)))
     thorough = w.tier == "thorough"
     shapes = gen.dag_shapes(1) + gen.dag_shapes(2) + gen.dag_shapes(3)
     shapes4 = gen.dag_shapes(4)
@@ -179,8 +182,8 @@ def specs(w):
                         for n_pre in (0, 1):
                             funcs.append(gen.make_member(ids, rng, "function", ids.new("f"), is_async, n_pre, n_post, n_snap))
                 yield ("funcs",), {"funcs": funcs, "classes": []}
-        for shape in shapes + rng.sample(shapes4, 30 if thorough else 8):
-            for kind in (kinds if len(shape) <= 2 else rng.sample(kinds, 4)):
+        for shape in shapes + plan.sample(shapes4, 30 if thorough else 8):
+            for kind in (kinds if len(shape) <= 2 else plan.sample(kinds, 4)):
                 for is_async in ((False, True) if kind in ("method", "static", "class", "call") else (False,)):
                     idx += 1
                     if idx % w.nshards != w.shard:
